@@ -18,14 +18,14 @@ theorem invR_step {fx : Fixes} {cfg : Cfg} {sym lw : Nat} (st st' : St) (hi : In
   cases h with
   | push style gs rest hs hl hfit => exact ⟨hn, hw⟩
   | nl style gs rest hs hl heq hnl => exact ⟨hn, hw⟩
-  | split0 style gs rest hs hl hge hnf hw0 hns hnfo =>
+  | split0 style gs rest hs hl hge hnf hns hw0 =>
     refine ⟨?_, fun _ => lw_ge_two_of_not_limit hl⟩
     intro r hr
     simp only [List.mem_append, List.mem_singleton] at hr
     cases hr with
     | inl h => exact hn r h
     | inr h => subst h; simp
-  | splitk style gs rest hs hl hge hnf hw0 =>
+  | splitk style gs rest hs hl hge hnf hns hw0 =>
     refine ⟨?_, fun _ => lw_ge_two_of_not_limit hl⟩
     intro r hr
     simp only [List.mem_append, List.mem_singleton] at hr
@@ -33,29 +33,47 @@ theorem invR_step {fx : Fixes} {cfg : Cfg} {sym lw : Nat} (st st' : St) (hi : In
     | inl h => exact hn r h
     | inr h => subst h; simp
 
-/-- What is known about a successful run of `wrapFullF`. -/
-theorem wrapFull_spec {fx : Fixes} {cfg : Cfg} {line : List Sec} {lw fill : Nat} {hint : Option Nat} {o : Out}
-    (hz : NlZero line) (h : wrapFullF fx cfg line lw fill hint = .ok o) :
-    ∃ st stop, InvL cfg lw line st ∧ InvR lw st ∧
-      (cfg.leftSym.w ≤ 1 → (fx.forceProgress = true → Fits cfg lw line) →
-        InvW fx cfg (symStyleOf fill hint) lw st) ∧
-      step fx cfg (symStyleOf fill hint) lw st = .done stop ∧
-      FinishShape cfg fill (symStyleOf fill hint) lw st stop o := by
+/-- What is known about the state in which the loop stops. -/
+theorem loop_spec {fx : Fixes} {cfg : Cfg} {line : List Sec} {lw sym : Nat} {st : St} {stop : Stop}
+    (hz : NlZero line)
+    (hloop : loop fx cfg sym lw (fuelFor cfg lw line) (initSt line) = some (st, stop)) :
+    InvL cfg lw line st ∧ InvR lw st ∧
+      (cfg.leftSym.w ≤ 1 → InvW fx cfg sym lw st) ∧
+      (Fits cfg lw line → Fits cfg lw st.stack) ∧
+      step fx cfg sym lw st = .done stop := by
+  have hinv := loop_inv (fx := fx) (cfg := cfg) (sym := sym) (lw := lw)
+    (fun st => InvL cfg lw line st ∧ InvR lw st ∧
+      (cfg.leftSym.w ≤ 1 → InvW fx cfg sym lw st) ∧ (Fits cfg lw line → Fits cfg lw st.stack))
+    (by
+      intro s s' ⟨a, b, c, d⟩ hs
+      exact ⟨invL_step s s' a hs, invR_step s s' b hs,
+        fun hw => invW_step hw s s' a (c hw) hs, fun hf => fits_step (d hf) hs⟩)
+    _ _ _ _ ⟨invL_init cfg lw line hz, invR_init lw line, fun _ => invW_init fx cfg _ lw line, fun hf => hf⟩ hloop
+  obtain ⟨⟨a, b, c, d⟩, hd⟩ := hinv
+  exact ⟨a, b, c, d, hd⟩
+
+/-- `wrapFullF` is the loop followed by `finish`. -/
+theorem wrapFull_loop {fx : Fixes} {cfg : Cfg} {line : List Sec} {lw fill : Nat} {hint : Option Nat} {o : Out}
+    (h : wrapFullF fx cfg line lw fill hint = .ok o) :
+    ∃ st stop, loop fx cfg (symStyleOf fill hint) lw (fuelFor cfg lw line) (initSt line) = some (st, stop) ∧
+      finish cfg fill (symStyleOf fill hint) lw st stop = .ok o := by
   unfold wrapFullF at h
   split at h
   · cases h
   · rename_i st stop hloop
-    have hinv := loop_inv (fx := fx) (cfg := cfg) (sym := symStyleOf fill hint) (lw := lw)
-      (fun st => InvL cfg lw line st ∧ InvR lw st ∧
-        (cfg.leftSym.w ≤ 1 → (fx.forceProgress = true → Fits cfg lw line) →
-          InvW fx cfg (symStyleOf fill hint) lw st))
-      (by
-        intro s s' ⟨a, b, c⟩ hs
-        exact ⟨invL_step s s' a hs, invR_step s s' b hs,
-          fun hw hf => invW_step hw s s' a (c hw hf) hs⟩)
-      _ _ _ _ ⟨invL_init cfg lw line hz, invR_init lw line, fun _ hf => invW_init fx cfg _ lw line hf⟩ hloop
-    obtain ⟨⟨a, b, c⟩, hd⟩ := hinv
-    exact ⟨st, stop, a, b, c, hd, finish_shape a b.nonempty hd h⟩
+    exact ⟨st, stop, hloop, h⟩
+
+/-- What is known about a successful run of `wrapFullF`. -/
+theorem wrapFull_spec {fx : Fixes} {cfg : Cfg} {line : List Sec} {lw fill : Nat} {hint : Option Nat} {o : Out}
+    (hz : NlZero line) (h : wrapFullF fx cfg line lw fill hint = .ok o) :
+    ∃ st stop, InvL cfg lw line st ∧ InvR lw st ∧
+      (cfg.leftSym.w ≤ 1 → InvW fx cfg (symStyleOf fill hint) lw st) ∧
+      (Fits cfg lw line → Fits cfg lw st.stack) ∧
+      step fx cfg (symStyleOf fill hint) lw st = .done stop ∧
+      FinishShape cfg fill (symStyleOf fill hint) lw st stop o := by
+  obtain ⟨st, stop, hloop, hf⟩ := wrapFull_loop h
+  obtain ⟨a, b, c, d, hd⟩ := loop_spec hz hloop
+  exact ⟨st, stop, a, b, c, d, hd, finish_shape a b.nonempty hd hf⟩
 
 theorem rightAlign_no_panic {cfg : Cfg} {fill sym lw : Nat} {st : St}
     (hr : InvR lw st) : ∃ x, rightAlign cfg fill sym lw st = .ok x := by
